@@ -55,7 +55,10 @@ TRUSTED = ['pattern facets and Python float(): no Lean semantics, the model cons
            'Python reading (float lexical grammar) or not at all (user patterns)',
            'elementpath date/time classes: the Lean port follows their regular expressions and constructor '
            'checks; ordering of date/time bounds is compared differentially only',
-           'independent Python reading of XSD Part 2 in harness/lib_datatypes.py (property oracle)']
+           'independent Python reading of XSD Part 2 in harness/lib_datatypes.py (property oracle)',
+           'CPython Decimal.__str__ / format(Decimal, "f") / str(int) and elementpath str(Date), str(HexBinary), '
+           'len(Base64Binary) are ported by hand (decRepr, decPlainAbs, natDigits, dateStr, hexUp, b64Len) and tied by the '
+           'unit correspondence on generated inputs, not proved against CPython']
 ASSUMPTIONS = ['QName/NOTATION (namespace context), xs:assertion facets and patterns on union restrictions are outside '
                'the model (skipped, counted in the histogram as unsupported)',
                'XSD 1.0 years <= 0000 and 24:00:00 on 31 December of a year outside 1..9999 are not judged '
@@ -1260,6 +1263,10 @@ def unit_ops(ctx: Ctx, drv: Optional[Driver]) -> None:
         bad = None
         if p != text:
             bad = 'preserve changed the text'
+        elif c != L.xsd_collapse(text) or r != L.xsd_replace(text):
+            # (the xmlschema site of C02-F4 is repaired by 2aa74a1: a difference here is a regression, not the
+            # known elementpath sites)
+            bad = 'normalize() differs from the XSD normalisation (#x20|#x9|#xA|#xD only)'
         elif len(r) != len(text) or any(ch in '\t\n\r' for ch in r):
             bad = 'replace: length changed or tab/LF/CR left'
         elif any(ch in '\t\n\r' for ch in c) or c[:1] == ' ' or c[-1:] == ' ' or '  ' in c:
@@ -1300,8 +1307,9 @@ def unit_ops(ctx: Ctx, drv: Optional[Driver]) -> None:
         digits = count_digits(d)
         if Fraction(d) != Fraction(Decimal(text)) or d.as_tuple() != Decimal(text).as_tuple():
             ctx.failure('decimal value differs from the value of the literal', case, repr(d))
-        if back is None or back.as_tuple() != d.as_tuple():
-            ctx.failure('encode(decode(text)) of xs:decimal does not decode to the same value', case,
+        if back is None or back != d:       # (the property asks for the same VALUE; the model comparison below
+            ctx.failure(                        #  also pins sign of zero, digits and exponent)
+                'encode(decode(text)) of xs:decimal does not decode to the same value', case,
                         {'kind': 'roundtrip', 'encoded': plain, 'decoded_again': repr(back)})
         if tuple(digits) != spec_digits(d):
             ctx.failure('count_digits differs from (integer digits, fraction digits) of the value', case,
@@ -1335,8 +1343,13 @@ def unit_ops(ctx: Ctx, drv: Optional[Driver]) -> None:
             add('int', {'text': text}, {'val': None}, case, False)
             continue
         enc = enc_int(i)
-        if helpers.integer_to_python(enc) != i:
-            ctx.failure('encode(decode(text)) of an integer does not decode to the same value', case, enc)
+        try:
+            again_i: Any = helpers.integer_to_python(enc)
+        except ValueError as e:
+            again_i = repr(e)[:80]
+        if again_i != i:
+            ctx.failure('encode(decode(text)) of an integer does not decode to the same value', case,
+                        {'kind': 'roundtrip', 'encoded': enc, 'decoded_again': repr(again_i)})
         add('int', {'text': text}, {'val': str(i), 'enc': enc, 'digits': list(count_digits(i))}, case, True)
 
     # ---- boolean
@@ -1348,8 +1361,13 @@ def unit_ops(ctx: Ctx, drv: Optional[Driver]) -> None:
             add('bool', {'text': text}, {'val': None}, case, False)
             continue
         enc = enc_bool(b)
-        if helpers.boolean_to_python(enc) is not b:
-            ctx.failure('encode(decode(text)) of xs:boolean does not decode to the same value', case, enc)
+        try:
+            again_b: Any = helpers.boolean_to_python(enc)
+        except Exception as e:   # noqa
+            again_b = repr(e)[:80]
+        if again_b is not b:
+            ctx.failure('encode(decode(text)) of xs:boolean does not decode to the same value', case,
+                        {'kind': 'roundtrip', 'encoded': enc, 'decoded_again': repr(again_b)})
         add('bool', {'text': text}, {'val': b, 'enc': enc}, case, True)
 
     # ---- hexBinary (on the text collapsed by the type, as raw_decode passes it), base64Binary
